@@ -627,8 +627,30 @@ class Array(metaclass=MetaArray):
             ll = value
         else:
             ll = len(value)
+            shape = get_shape_from_array(value, len(self._shape))
+            if tuple(shape) == tuple(self._shape):
+                ll = len(self)  # same shape: same number of items
+            elif ll == len(self):
+                ll = -1  # same count along the first axis only
         if len(self) == ll:
-            self.__class__._to_buffer(self._buffer, self._offset, value)
+            cls = self.__class__
+            if cls._is_static_type or is_integer(value):
+                cls._to_buffer(self._buffer, self._offset, value)
+            else:
+                # items have the space fixed at creation: update them one by
+                # one (each checks that it fits) and undo everything if one
+                # of them cannot be honoured
+                if not hasattr(value, "shape") and not hasattr(
+                    value, "_shape"
+                ):
+                    value = _as_object_array(value, self._shape)
+                backup = self._buffer.to_bytearray(self._offset, self._size)
+                try:
+                    for idx in iter_index(self._shape, cls._order):
+                        self[idx] = value[idx]
+                except Exception:
+                    self._buffer.update_from_buffer(self._offset, backup)
+                    raise
         else:
             if is_integer(value):
                 raise ValueError(f"Cannot specify new length {ll} for {self}")
